@@ -6,7 +6,8 @@
    level exponent, i.e. right-associative, atoms / calls / parenthesised expressions at level 4).
    print_parse : for EVERY printable tree e, the parser reads the printed tokens back as exactly e.
    So `a - b - c` (the print of (a-b)-c) is read as (a-b)-c and never as a-(b-c) (whose print is `a - (b - c)`), `-a ** b` as
-   -(a**b), `a ** b ** c` as a**(b**c), `a / b * c` as (a/b)*c, max(a, b, c) as the nested maximum, … for all operands. *)
+   -(a**b), `a ** b ** c` as a**(b**c), `a / b * c` as (a/b)*c, … for all operands (the pr_* equations below spell these out).
+   Not covered: conditional expressions (the separate p_test layer), calls with more than two arguments. *)
 From Coq Require Import String Ascii List Bool Arith ZArith Lia.
 Import ListNotations.
 Require Import Generated PyBase PyStr Lex Format Symbols Split Merge ParseEq ParseModel Eval CodeGen CodeGenFacts2 CodeGenFacts8.
@@ -290,5 +291,58 @@ Section Print.
   Proof.
     intros Hp Hf. destruct (print_parse_levels e Hp) as (_ & _ & _ & H0).
     destruct (F0_of_L0 e rest H0 Hf) as (f & H). exact (tree_fuel_suffices row f _ _ _ H).
+  Qed.
+
+  (* at statement level: NAME[k0] = <printed e> is the assignment of (the integer-folded) e *)
+  Theorem print_parse_statement y i k0 e :
+    row y = Some i -> printable e ->
+    src_of_tokens row (CRead y k0 :: CAssign :: pr 0 e) = Some (y, i, k0, SVal e)
+    /\ stmt_of_tokens row (CRead y k0 :: CAssign :: pr 0 e)
+       = (if py_ok (fold_ints e) then Some (y, SAssign i k0 (fold_ints e)) else None).
+  Proof.
+    intros Hy Hp.
+    assert (A : src_of_tokens row (CRead y k0 :: CAssign :: pr 0 e) = Some (y, i, k0, SVal e)).
+    { unfold src_of_tokens. rewrite Hy. unfold test_fuel. replace (8 * length (pr 0 e) + 8) with (S (8 * length (pr 0 e) + 7)) by lia.
+      cbn [p_test].
+      assert (Hf : follow0 []) by (repeat split).
+      pose proof (print_parse e [] Hp Hf) as H. rewrite app_nil_r in H. rewrite H. reflexivity. }
+    split; [exact A|]. unfold stmt_of_tokens. rewrite A. reflexivity.
+  Qed.
+
+  (* the shapes, spelled out (all by computation of pr): which token sequence is which tree *)
+  Lemma pr_sub_sub a b c : pr 0 (EBin OSub (EBin OSub a b) c) = (pr 0 a ++ CMinus :: pr 1 b) ++ CMinus :: pr 1 c.
+  Proof. reflexivity. Qed.
+  Lemma pr_sub_right a b c :
+    pr 0 (EBin OSub a (EBin OSub b c)) = pr 0 a ++ CMinus :: CLPar :: (pr 0 b ++ CMinus :: pr 1 c) ++ [CRPar].
+  Proof. reflexivity. Qed.
+  Lemma pr_div_mul a b c : pr 0 (EBin OMul (EBin ODiv a b) c) = (pr 1 a ++ CSlash :: pr 2 b) ++ CStar :: pr 2 c.
+  Proof. reflexivity. Qed.
+  Lemma pr_div_right a b c :
+    pr 0 (EBin ODiv a (EBin OMul b c)) = pr 1 a ++ CSlash :: CLPar :: (pr 1 b ++ CStar :: pr 2 c) ++ [CRPar].
+  Proof. reflexivity. Qed.
+  Lemma pr_add_mul a b c : pr 0 (EBin OAdd a (EBin OMul b c)) = pr 0 a ++ CPlus :: pr 1 b ++ CStar :: pr 2 c.
+  Proof. reflexivity. Qed.
+  Lemma pr_neg_pow a b : pr 0 (ENeg (EBin OPow a b)) = CMinus :: pr 4 a ++ CPow :: pr 2 b.
+  Proof. reflexivity. Qed.
+  Lemma pr_pow_neg_base a b : pr 0 (EBin OPow (ENeg a) b) = (CLPar :: (CMinus :: pr 2 a) ++ [CRPar]) ++ CPow :: pr 2 b.
+  Proof. reflexivity. Qed.
+  Lemma pr_pow_neg_exponent a b : pr 0 (EBin OPow a (ENeg b)) = pr 4 a ++ CPow :: CMinus :: pr 2 b.
+  Proof. reflexivity. Qed.
+  Lemma pr_pow_pow a b c : pr 0 (EBin OPow a (EBin OPow b c)) = pr 4 a ++ CPow :: pr 4 b ++ CPow :: pr 2 c.
+  Proof. reflexivity. Qed.
+  Lemma pr_pow_left a b c :
+    pr 0 (EBin OPow (EBin OPow a b) c) = (CLPar :: (pr 4 a ++ CPow :: pr 2 b) ++ [CRPar]) ++ CPow :: pr 2 c.
+  Proof. reflexivity. Qed.
+  Lemma pr_neg_mul a b : pr 0 (EBin OMul (ENeg a) b) = (CMinus :: pr 2 a) ++ CStar :: pr 2 b.
+  Proof. reflexivity. Qed.
+  Lemma pr_mul_neg a b : pr 0 (EBin OMul a (ENeg b)) = pr 1 a ++ CStar :: CMinus :: pr 2 b.
+  Proof. reflexivity. Qed.
+
+  (* printing is injective on printable trees: two different trees never print to the same tokens *)
+  Corollary pr_injective e1 e2 : printable e1 -> printable e2 -> pr 0 e1 = pr 0 e2 -> e1 = e2.
+  Proof.
+    intros H1 H2 E. assert (Hf : follow0 []) by (repeat split).
+    pose proof (print_parse e1 [] H1 Hf) as A. pose proof (print_parse e2 [] H2 Hf) as B.
+    rewrite E in A. rewrite A in B. congruence.
   Qed.
 End Print.
